@@ -314,6 +314,11 @@ class TaskMappingSpec(native_v1_specs.MappingSpec):
             if next_task_name in traversed:
                 continue
 
+            # An undefined task has no transitions to traverse. The reference to it
+            # is reported separately when the spec is inspected.
+            if not self.has_task(next_task_name):
+                continue
+
             for task in self.get_next_tasks(next_task_name):
                 q.put(task[0])
 
